@@ -133,7 +133,8 @@ def ExemplarIneligible (ls : List Line) : Prop :=
 (`quantile` on a summary's quantile samples, `le` on buckets, the state label of a stateset) -/
 def groupLabels (n t : Str) (s : OSample) : Labels :=
   let ls := s.labels.getD []
-  if t = cs!"summary" ∧ s.name = n then ls.filter (fun kv => kv.1 != cs!"quantile")
+  if t = cs!"info" then []                      -- the samples of an info family form one group
+  else if t = cs!"summary" ∧ s.name = n then ls.filter (fun kv => kv.1 != cs!"quantile")
   else if t = cs!"stateset" then ls.filter (fun kv => kv.1 != n)
   else if (t = cs!"histogram" ∨ t = cs!"gaugehistogram") ∧ s.name = n ++ cs!"_bucket" then
     ls.filter (fun kv => kv.1 != cs!"le")
@@ -146,17 +147,31 @@ def SameGroup (n t : Str) (s1 s2 : OSample) : Prop :=
 /-- `Timestamp` values: later-than on (sec, nsec) -/
 def stampLt (a b : Int × Int) : Prop := a.1 < b.1 ∨ (a.1 = b.1 ∧ a.2 < b.2)
 
-/-- two consecutive samples of one group (of a family that is not an info family), the second with an earlier
-timestamp; timestamps of the `Timestamp` form, or both of the float form -/
-def TimestampBackwards (P : Params) (ls : List Line) : Prop :=
-  ∃ n t s1 s2, InBlock ls n t [smp s1, smp s2] ∧ t ≠ cs!"info" ∧
-    s1.name ∈ familyNames n t ∧ s2.name ∈ familyNames n t ∧ SameGroup n t s1 s2 ∧
-    ((∃ a1 b1 a2 b2, s1.ts = some (.stamp a1 b1) ∧ s2.ts = some (.stamp a2 b2) ∧ stampLt (a2, b2) (a1, b1))
-     ∨ (∃ f1 f2, s1.ts = some (.flt f1) ∧ s2.ts = some (.flt f2) ∧ P.lt (.flt f2) (.flt f1) = true))
+/-- `t1` is later than `t2`.  Two `Timestamp`s: on (sec, nsec).  Two floats: `<`.  A `Timestamp` and a float:
+`float(Timestamp)` against the float — or the seconds against the float when the conversion overflows -/
+def tsLater (P : Params) : OTs → OTs → Prop
+  | .stamp a1 b1, .stamp a2 b2 => stampLt (a2, b2) (a1, b1)
+  | .flt f1, .flt f2 => P.lt (.flt f2) (.flt f1) = true
+  | .stamp a b, .flt f =>
+    match P.tsFloat a b with
+    | some x => P.lt (.flt f) (.flt x) = true
+    | none => P.lt (.flt f) (.int a) = true
+  | .flt f, .stamp a b =>
+    match P.tsFloat a b with
+    | some x => P.lt (.flt x) (.flt f) = true
+    | none => P.lt (.int a) (.flt f) = true
 
-/-- two consecutive samples of one group, exactly one of them with a timestamp -/
+/-- two consecutive samples of one group, the second with an earlier timestamp — in whatever forms the two
+timestamps are written.  Exemption (in the parser: `and typ != 'info'`): info families -/
+def TimestampBackwards (P : Params) (ls : List Line) : Prop :=
+  ∃ n t s1 s2 t1 t2, InBlock ls n t [smp s1, smp s2] ∧ t ≠ cs!"info" ∧
+    s1.name ∈ familyNames n t ∧ s2.name ∈ familyNames n t ∧ SameGroup n t s1 s2 ∧
+    s1.ts = some t1 ∧ s2.ts = some t2 ∧ tsLater P t1 t2
+
+/-- two consecutive samples of one group, exactly one of them with a timestamp (info families included: all their
+samples are one group) -/
 def TimestampPartial (ls : List Line) : Prop :=
-  ∃ n t s1 s2, InBlock ls n t [smp s1, smp s2] ∧ t ≠ cs!"info" ∧
+  ∃ n t s1 s2, InBlock ls n t [smp s1, smp s2] ∧
     s1.name ∈ familyNames n t ∧ s2.name ∈ familyNames n t ∧ SameGroup n t s1 s2 ∧ s1.ts.isSome ≠ s2.ts.isSome
 
 /-! ## metadata and family structure -/
@@ -248,10 +263,22 @@ def HistNoInf (P : Params) (n : Str) (samples : List OSample) : Prop :=
   ∃ pre sb tail post b g, samples = pre ++ sb :: (tail ++ post) ∧ IsBucket P n sb b g ∧ P.isPosInf b = false ∧
     (∀ s ∈ tail, InHistGroup n g sb.ts s) ∧ GroupEnds P n g sb.ts post
 
-/-- a group whose `_count` / `_gcount` line, directly after its last bucket line, differs from that bucket's count -/
+/-- a `_count` / `_gcount` line of family `n` -/
+def IsCountLine (n : Str) (s : OSample) : Prop := s.name = n ++ cs!"_count" ∨ s.name = n ++ cs!"_gcount"
+
+/-- not a `_count` / `_gcount` line (by its suffix after the family name) -/
+def NotCountLine (n : Str) (s : OSample) : Prop :=
+  s.name.drop n.length ≠ cs!"_count" ∧ s.name.drop n.length ≠ cs!"_gcount"
+
+/-- a group whose `_count` / `_gcount` differs from the count of its last bucket line: after the group's last bucket
+line `sb` come its other lines (`_sum`, `_created`, … in any order, `t1` and `t2`), among them the count line `sc` (the
+last one of the group, should there be several); then the group ends.  This is the canonical order
+`_bucket…, _bucket{+Inf}, _count, _sum[, _created]` and every permutation of the non-bucket lines.  Not covered: a count
+line that precedes bucket lines of its group. -/
 def HistCountNeInf (P : Params) (n : Str) (samples : List OSample) : Prop :=
-  ∃ pre sb sc post b g v c, samples = pre ++ sb :: sc :: post ∧ IsBucket P n sb b g ∧
-    (sc.name = n ++ cs!"_count" ∨ sc.name = n ++ cs!"_gcount") ∧ InHistGroup n g sb.ts sc ∧
+  ∃ pre sb t1 sc t2 post b g v c, samples = pre ++ sb :: (t1 ++ sc :: (t2 ++ post)) ∧ IsBucket P n sb b g ∧
+    (∀ s ∈ t1, InHistGroup n g sb.ts s) ∧ IsCountLine n sc ∧ InHistGroup n g sb.ts sc ∧
+    (∀ s ∈ t2, InHistGroup n g sb.ts s ∧ NotCountLine n s) ∧
     sb.value = some v ∧ sc.value = some c ∧ P.eq v c = false ∧ GroupEnds P n g sb.ts post
 
 /-! ### the same two rules on the document's lines
